@@ -139,6 +139,16 @@ fn solo(v: &Value) -> Result<CaseReport, String> {
     run_solo(v, report)
 }
 
+fn big_foreign(_ctx: &Ctx, ev: &mut Value) -> Option<Violation> {
+    match crate::props::scenarios::huge_foreign_file() {
+        Ok(n) => {
+            ev["coverage"]["huge_foreign_file_steps"] = serde_json::json!(n);
+            None
+        }
+        Err(v) => Some(v),
+    }
+}
+
 pub fn def() -> PropDef {
     PropDef {
         id: "C04",
@@ -150,7 +160,7 @@ pub fn def() -> PropDef {
         worker,
         solo,
         hang_cpu_s: 30.0,
-        extra: None,
+        extra: Some(big_foreign),
         confirm_known: false,
     }
 }
